@@ -495,6 +495,12 @@ def run(tier):
         return False
     if not any(member_roundtrip(g) for g in cases):
         raise vlib.ToolError("vacuous replay: no sequence edits an object-stream member and round-trips it in memory")
+    if not any(g["cfg"]["stmf"] == "F1" and any(e[0] == "F1" and e[1] == "Identity" for e in g["cfg"]["cf"])
+               and any("ok-restored" in c["tags"] for c in g["calls"]) for g in cases):
+        raise vlib.ToolError("vacuous replay: no sequence round-trips a configuration whose default filter is an Identity filter under a custom name")
+    if not any(g["cfg"]["dn"] in ("D3", "D8") and g["cfg"]["V"] >= 4 and g["cfg"]["strf"] != "Identity" and any(c["call"] == "Encrypt" and c["res"] == "Ok" for c in g["calls"])
+               for g in cases):
+        raise vlib.ToolError("vacuous replay: no sequence encrypts a stream with an Identity override and a long string in its dictionary under a non-identity StrF")
     if not any(any(c["call"] == "Rekey" for c in g["calls"][:i]) and g["calls"][i]["call"] == "Encrypt" and g["calls"][i]["res"] == "Ok"
                for g in cases for i in range(len(g["calls"]))):
         raise vlib.ToolError("vacuous replay: no sequence protects a decrypted V4/V5 document again with V2 (Rekey ; Encrypt)")
@@ -515,6 +521,19 @@ def run(tier):
     for reset, calls in rruns:
         itemcls.add("prep." + reset["prep"])
         c0 = reset["cfg"]
+        # an Identity crypt filter under a custom name as default filter; Identity overrides (every form) on streams
+        # whose dictionaries hold long strings
+        for nm in (c0["stmf"], c0["strf"]):
+            if nm != "Identity" and any(e[0] == nm and e[1] == "Identity" for e in c0["cf"]):
+                itemcls.add("cf.custom-name.identity.default")
+
+        def has_long_str(o):
+            return (o["k"] == "str" and o["len"] >= 16) or any(has_long_str(x) for x in o.get("v", []) + o.get("d", []))
+        for o in reset["objs"]:
+            if o["k"] == "stream" and o["crypt"]["f"] != "none" and c0["V"] >= 4 and any(has_long_str(x) for x in o["d"]):
+                cr = o["crypt"]
+                if cr["f"] in ("noname", "nodp") or cr["n"] == "Identity" or not any(e[0] == cr["n"] for e in c0["cf"]):
+                    itemcls.add("identity.override.%s.dict.string" % ("missing-name" if cr["f"] in ("name", "arr") and cr["n"] != "Identity" else cr["f"]))
         if c0["R"] <= 4 and not c0["urep"]:
             itemcls.add("pw.user.unencodable")
         if c0["R"] <= 4 and not c0["orep"]:
@@ -601,7 +620,8 @@ def run(tier):
               ({"streamdict", "metadata", "crypt.name", "crypt.arr", "crypt.nodp", "crypt.noname", "empty.str", "empty.stream", "long.str", "long.stream",
                 "pw.user.unencodable", "pw.owner.unencodable", "pw.emoji", "pw.mixed", "offer.differs.in.unencodable",
                 "rekey.V4+.to.V2-", "crypt.entry.belowV4", "two-revision.objstm.file.loaded", "two-revision.objstm.file.autodecrypt",
-                "two-revision.objstm.file.decrypt", "delete.member", "empty.offer.with.empty.owner.R56", "crypt.indirect.parameters", "incremental.update.of.encrypted.file", "incremental.update.of.encrypted.file.emptypw", "metadata.dict.string.em=True", "metadata.dict.string.em=False",
+                "two-revision.objstm.file.decrypt", "delete.member", "cf.custom-name.identity.default", "identity.override.name.dict.string",
+                "identity.override.noname.dict.string", "identity.override.nodp.dict.string", "identity.override.missing-name.dict.string", "empty.offer.with.empty.owner.R56", "crypt.indirect.parameters", "incremental.update.of.encrypted.file", "incremental.update.of.encrypted.file.emptypw", "metadata.dict.string.em=True", "metadata.dict.string.em=False",
                 "prep.mem", "prep.file-objstm", "prep.file-xrefstm", "objstm.container", "objstm.member", "edit", "member.edit.roundtrip"} - itemcls)
     if missing:
         raise vlib.ToolError("vacuous trace set: classes never recorded: %s" % sorted(missing))
